@@ -1,8 +1,84 @@
 import ErdosVerif.Driver.Util
-namespace ErdosVerif.Driver.Greedy
-open Lean ErdosVerif.Driver
+import ErdosVerif.Driver.Ledger
+import ErdosVerif.Model.Greedy
+/-!
+Suite "greedy": one invocation of EDF / FIFO / LSF `schedule()` (C13, greedy clauses of C10, C12).
 
-/-- Suite handler: one JSON case in, one JSON reply out (stub until the suite is built). -/
-def handle (_j : Json) : Json := Json.mkObj [("protocol_error", Json.str "suite-not-built")]
+case:  {"suite":"greedy","policy":"EDF"|"FIFO"|"LSF","enforce":bool,"now":int,
+        "pools":[{"workers":[[[name,id|null,q]…]…],                 -- one total vector per worker
+                  "running":[{"lid":n,"w":i,"s":strategy,"strats":[strategy…]}…]}…],   -- really placed tasks
+        "offer":[{"g":n,"t":n,"graph":str,"state":str,"deadline":int,"release":int,
+                  "remaining":int|null,"strats":[strategy…]}…]}      -- get_schedulable_tasks(), in order
+reply: {"order":[[g,t]…],"placements":[{"task":[g,t],"kind":"place"|"cancel","pool":i|null,
+        "strat":sid|null,"time":int|null}…],"virt0":[pool…],"virt":[pool…],
+        "accounted":bool}                 -- virt == the reported placements charged to virt0
+     | {"err":"<ExceptionClass>"}
+-/
+namespace ErdosVerif.Driver.Greedy
+open Lean ErdosVerif.Driver ErdosVerif.Model ErdosVerif.Model.Greedy
+
+def parseOffered (j : Json) : Except String Offered := do
+  let strats ← mapM' Ledger.parseStrat (← fldArr j "strats")
+  let stName ← fldStr j "state"
+  let some st := TState.ofName? stName | throw s!"bad state {stName}"
+  let remaining ← match fldOpt j "remaining" with
+    | none => pure none
+    | some v => some <$> v.getInt?
+  let task : TaskS :=
+    { name := "", conditional := false, terminal := false, prob := 1000, strategies := strats,
+      profile := 0, state := st, release := ← fldInt j "release", deadline := ← fldInt j "deadline",
+      remaining := remaining }
+  return ⟨⟨← fldNat j "g", ← fldNat j "t"⟩, ← fldStr j "graph", task⟩
+
+def parsePool (j : Json) : Except String Pool := do
+  let vecs ← mapM' Ledger.parseVec (← fldArr j "workers")
+  let mut p : Pool := ⟨vecs.map Worker.ofVec, []⟩
+  for r in ← fldArr j "running" do
+    let strats ← mapM' Ledger.parseStrat (← fldArr r "strats")
+    let s ← Ledger.parseStrat (← fld r "s")
+    match p.placeTask (← fldNat r "lid") strats (some s) (some (← fldNat r "w")) with
+    | (p', .ok true) => p := p'
+    | _ => throw "running task does not fit the worker it is said to run on"
+  return p
+
+def jWorkerV (w : Worker) : Json :=
+  Json.mkObj [
+    ("avail", Ledger.jVec w.res.avail),
+    ("placed", jList (fun p => Json.arr #[jNat p.1, jNat p.2.sid]) w.placed)]
+
+def jPoolV (p : Pool) : Json :=
+  Json.mkObj [
+    ("placed", jList (fun q => Json.arr #[jNat q.1, jNat q.2]) p.placed),
+    ("workers", jList jWorkerV p.workers)]
+
+def jTid (t : TaskId) : Json := Json.arr #[jNat t.g, jNat t.t]
+
+def jPlacement (p : PlacementS) : Json :=
+  Json.mkObj [
+    ("task", jTid p.task),
+    ("kind", Json.str (match p.kind with | .cancel => "cancel" | .place => "place" | .load => "load" | .evict => "evict")),
+    ("pool", jOptNat p.pool),
+    ("worker", jOptNat p.worker),
+    ("strat", jOptNat (p.strat.map (·.sid))),
+    ("time", jOptInt p.time)]
+
+def runCase (j : Json) : Except String Json := do
+  let polName ← fldStr j "policy"
+  let some pol := Policy.ofName? polName | throw s!"bad policy {polName}"
+  let cfg : Cfg := ⟨pol, ← fldBool j "enforce", ← fldInt j "now"⟩
+  let live ← mapM' parsePool (← fldArr j "pools")
+  let offer ← mapM' parseOffered (← fldArr j "offer")
+  match schedule cfg offer live with
+  | .error e => return errJ e.name
+  | .ok r =>
+    let acc := accountAll r.virt0 r.order r.placements
+    return Json.mkObj [
+      ("order", jList (fun o => jTid o.id) r.order),
+      ("placements", jList jPlacement r.placements),
+      ("virt0", jList jPoolV r.virt0),
+      ("virt", jList jPoolV r.virt),
+      ("accounted", Json.bool ((jList jPoolV acc).compress == (jList jPoolV r.virt).compress))]
+
+def handle (j : Json) : Json := guardE (runCase j)
 
 end ErdosVerif.Driver.Greedy
